@@ -15,8 +15,10 @@ import (
 	"time"
 
 	"berty.tech/go-orbit-db/iface"
+	cid "github.com/ipfs/go-cid"
 
 	"verifharness/fw"
+	"verifharness/hk"
 	"verifharness/sim"
 )
 
@@ -24,7 +26,7 @@ func init() {
 	fw.Register(&fw.Property{
 		ID:    "C18",
 		Level: "exploration",
-		Rule: "cases = an on-disk instance with 1-3 databases (mixed types) plus a remote writer; a writer goroutine, replication of remote entries and (in some cases) a Load run while Close of ONE store / of the WHOLE instance / Drop of one database is issued at a moment in {idle, write.after-append, write.after-persist, write.after-index, repl.after-fetch, merge.after-join, during Load, PRNG delay}: the hooked goroutine is held at the point while the closing goroutine runs. Afterwards the operation set {write, read, Load, Sync, Close, Close, Drop} is issued on the closed store, each under a watchdog. Finally every instance is closed and goroutines are attributed by creation site. " +
+		Rule: "cases = an on-disk instance with 1-3 databases (mixed types) plus a remote writer; a writer goroutine, replication of remote entries and (in some cases) a Load run while Close of ONE store / of the WHOLE instance / Drop of one database is issued at a moment in {idle, write.after-append, write.after-persist, write.after-index, repl.after-fetch, merge.after-join, during Load, while an application-issued Sync (background context) is blocked in a block fetch, PRNG delay}: the hooked goroutine is held at the point while the closing goroutine runs. Afterwards the operation set {write, read, Load, Sync, Close, Close, Drop} is issued on the closed store, each under a watchdog. After Close of a store (without Drop) the database is reopened on the live instance, the OLD handle is closed twice more, and heads exchanged on reconnect must reach the new handle. Finally every instance is closed and goroutines are attributed by creation site. " +
 			"distinct = (databases, target, action, moment, store type, post-close operations, PRNG seed of the background timing); non-trivial = the moment was reached while activity was in flight (point arrivals observed, or idle by design) and all post-close operations were issued",
 		Assumptions: []string{"goroutines are attributed to go-orbit-db by their 'created by' frame; harness subscriptions are cancelled first; goroutines of kubo/libp2p/leveldb are not judged", "a hang = the operation still blocked after the watchdog (15 s plain) while the world is otherwise at rest"},
 		Cases:       c18Cases,
@@ -36,7 +38,7 @@ func init() {
 	})
 }
 
-var c18Moments = []string{"idle", "write.after-append", "write.after-persist", "write.after-index", "repl.after-fetch", "merge.after-join", "during-load", "random"}
+var c18Moments = []string{"idle", "write.after-append", "write.after-persist", "write.after-index", "repl.after-fetch", "merge.after-join", "during-load", "sync-blocked-in-fetch", "random"}
 
 func c18Cases(tier string, seed int64) []fw.Case {
 	var out []fw.Case
@@ -116,6 +118,13 @@ func sameStore(arg interface{}, s iface.Store) bool {
 }
 
 func c18Run(c fw.Case) fw.Verdict {
+	t0 := time.Now()
+	lap := func(what string) {
+		if os.Getenv("VERIF_VERBOSE") != "" {
+			fmt.Fprintf(os.Stderr, "lap %-28s %6d ms pending=%v\n", what, time.Since(t0).Milliseconds(), hk.Global.Detail())
+		}
+	}
+	defer lap("end")
 	e := NewEnv()
 	defer e.Close()
 	v := fw.Verdict{}
@@ -177,11 +186,29 @@ func c18Run(c fw.Case) fw.Verdict {
 		sT = target.Stores[P.Idx]
 	}
 
+	if moment == "sync-blocked-in-fetch" {
+		// an application-issued Sync (its own context, never cancelled) is blocked in a remote block fetch
+		e.W.Instant = false
+		for k := 0; k < 4; k++ {
+			_, _ = ApplyOp(bg, target.Stores[O.Idx], honestOp(target.Type, 6000+k))
+		}
+		e.W.Settle()
+		e.W.DropAll()
+		e.W.SetGate(func(ctx context.Context, to, from *sim.Peer, _ cid.Cid) error {
+			if to != P {
+				return nil
+			}
+			<-ctx.Done() // the block never arrives
+			return ctx.Err()
+		})
+		_ = sT.Sync(bg, cloneHeads(headsOf(target.Stores[O.Idx])))
+		time.Sleep(3 * time.Millisecond)
+	}
 	// background activity
 	stopBG := make(chan struct{})
 	var bgwg sync.WaitGroup
 	var closedFlag int32
-	if moment != "idle" {
+	if moment != "idle" && moment != "sync-blocked-in-fetch" {
 		bgwg.Add(2)
 		go func() { // local writer on the target
 			defer bgwg.Done()
@@ -295,6 +322,7 @@ func c18Run(c fw.Case) fw.Verdict {
 		return fw.Verdict{Status: fw.Violated, Key: action + "-error/" + moment, NonTrivial: true, Sig: v.Sig, What: fmt.Sprintf("%s at %s returned %v", action, moment, actionRes.err)}
 	}
 
+	lap("action done")
 	// post-close operation set on the closed store
 	post := []struct {
 		name string
@@ -334,12 +362,47 @@ func c18Run(c fw.Case) fw.Verdict {
 			return fw.Verdict{Status: fw.Violated, Key: "repeated-close-error", NonTrivial: true, Sig: v.Sig, What: fmt.Sprintf("%s after %s returned %v", p.name, action, r.err)}
 		}
 	}
+	lap("post ops done")
+	e.W.SetGate(nil)
 	if action != "close-instance" {
 		P.Untrack(sT) // the closed store's buses are no longer accounted for
-		e.H.Rebase()
+		e.StableRebase()
+	}
+	if action == "close-store" && !postDrop {
+		// reopen the database, then close the OLD handle again: the new handle must be unaffected
+		e.W.WaitIdle(sim.IdleOpts{Watchdog: 5 * time.Second})
+		e.W.Instant = false
+		if err := e.OpenOn(target, P); err != nil {
+			return fw.Verdict{Status: fw.Violated, Key: "reopen-after-close-failed", NonTrivial: true, Sig: v.Sig, What: "database cannot be reopened on the live instance after its store was closed: " + err.Error()}
+		}
+		sN := target.Stores[P.Idx]
+		if r := withWatchdog("load-new-handle", wd, func() error { return sN.Load(bg, -1) }); r.hung {
+			return c18Hang(v, "load-new-handle", moment)
+		}
+		_ = sT.Close()
+		_ = sT.Close()
+		// heads sent over the direct channel must still reach the reopened store
+		op, err := ApplyOp(bg, target.Stores[O.Idx], honestOp(target.Type, 8000))
+		if err == nil {
+			e.W.Settle()
+			e.W.DropAll() // no pubsub announcement: only the exchange on (re)connect delivers it
+			e.W.Cut(P, O)
+			e.W.Heal(P, O)
+			e.W.Flush()
+			v.Count("reopened_handle_checks", 1)
+			if !logHas(sN, op.GetEntry().GetHash()) {
+				if e.W.WaitIdle(sim.IdleOpts{Stable: confirmWindow(), Watchdog: 30 * time.Second}) && !logHas(sN, op.GetEntry().GetHash()) {
+					return fw.Verdict{Status: fw.Violated, Key: "closed-handle-affects-reopened-store", NonTrivial: true, Sig: v.Sig,
+						What: "after Close, reopen and a repeated Close of the old handle, heads exchanged on reconnect no longer reach the reopened store"}
+				}
+			}
+		}
+		sT = sN
+		e.W.Instant = true
 	}
 	e.W.WaitIdle(sim.IdleOpts{Watchdog: 10 * time.Second})
 
+	lap("reopened-handle check done")
 	// siblings untouched and writable (store close / drop)
 	if action != "close-instance" {
 		for _, db := range dbs[1:] {
@@ -363,6 +426,7 @@ func c18Run(c fw.Case) fw.Verdict {
 		}
 	}
 
+	lap("siblings done")
 	// close everything, then the goroutine census
 	P.Stop()
 	O.Stop()
@@ -386,6 +450,7 @@ func c18Run(c fw.Case) fw.Verdict {
 			What: fmt.Sprintf("after %s at %s and closing every instance, goroutines created by go-orbit-db are still alive after 3 s: %s", action, moment, strings.Join(sites, "; "))}
 	}
 
+	lap("census done")
 	// reopen: acknowledged data still there; dropped database empty
 	if err := P.Start(); err != nil {
 		return fw.Verdict{Status: fw.Violated, Key: "reopen-failed", NonTrivial: true, Sig: v.Sig, What: "instance cannot be reopened on the directory: " + err.Error()}
